@@ -154,11 +154,13 @@ def sweep_plans(rng, bits):
 
 
 _memo = {}
+_pools = {}
 
 
 def build_plan(plan):
     """plan -> certv1.Chain (deterministic given the plan)."""
-    key = (plan["seed"], json.dumps(plan["elements"], sort_keys=True), json.dumps(plan["targets"]))
+    key = (plan["seed"], plan.get("keyseed"), json.dumps(plan["elements"], sort_keys=True),
+           json.dumps(plan["targets"]))
     pick = _memo.get(key)
     if pick is None:
         rng = random.Random(plan["seed"])
@@ -172,7 +174,11 @@ def build_plan(plan):
             if e.get("leafmsg"):
                 it["message"] = bytes(rng.randrange(256) for _ in range(e["leafmsg"]))
             els.append(it)
-        ch = certv1.build({"targets": plan["targets"], "elements": els}, rng)
+        pool = _pools.get(plan.get("keyseed"))
+        if pool is None and plan.get("keyseed") is not None:
+            pool = _pools[plan["keyseed"]] = certv1.KeyPool(plan["keyseed"])
+        ch = certv1.build({"targets": plan["targets"], "elements": els}, rng,
+                          keypool=pool.picker() if pool else None)
         import pickle
         pick = pickle.dumps((ch, rng.getstate()))
         if len(_memo) > 8:
